@@ -578,7 +578,7 @@ def blocks_part(prop, tier, seed):
     part["solvers"] = [K.SOLVER]
     thorough = tier == "thorough"
     pth, cmd = _ir("blocks.cc", "-O0")
-    budget = 700 if thorough else 80
+    budget = 700 if thorough else 420
     specs = []
     base = dict(kind='blocks', N=8, ir=pth, seed=seed, budget_s=budget, samples=(10 if thorough else 2), stride=(1 if thorough else 3),
                 xcheck=(2 if thorough else 0), xcheck_stride=7)
@@ -617,7 +617,7 @@ def header_part(prop, tier, seed):
     thorough = tier == "thorough"
     pth, cmd = _ir("blocks.cc", "-O0")
     Ns = [8, 16] if thorough else [8]
-    specs = [dict(kind='header', op='ReadHeader', N=N, ir=pth, seed=seed, budget_s=(800 if thorough else 80), samples=(16 if thorough else 4),
+    specs = [dict(kind='header', op='ReadHeader', N=N, ir=pth, seed=seed, budget_s=(800 if thorough else 420), samples=(16 if thorough else 4),
                   stride=1, smax=(6 if thorough else 4), xcheck=(8 if thorough else 0)) for N in Ns]
     results = K._pool_run(specs)
     part["bounds"] = {"buffer_size_N": Ns, "schema bytes": "<= %d" % (6 if thorough else 4), "clang": [cmd]}
